@@ -350,12 +350,181 @@ Proof.
   rewrite (Un p). apply updL_ext. exact Un.
 Qed.
 
+(* ---------------------------------------------------------------- pointwise equal lists give pointwise equal results *)
+Definition leq (L L' : lists) : Prop := forall a, L a = L' a.
+Lemma leq_refl L : leq L L. Proof. intro; reflexivity. Qed.
+Lemma leq_trans A B C : leq A B -> leq B C -> leq A C.
+Proof. intros H1 H2 a. rewrite H1. apply H2. Qed.
+Lemma updL_leq L L' g v v' : leq L L' -> v = v' -> leq (updL L g v) (updL L' g v').
+Proof. intros H E a. subst. unfold updL. destruct (a =? g); [reflexivity | apply H]. Qed.
+Lemma find_ext {A} (f f' : A -> bool) l : (forall a, f a = f' a) -> find f l = find f' l.
+Proof. intro H. induction l as [|y r IH]; [reflexivity|]. simpl. rewrite H, IH. reflexivity. Qed.
+Lemma sp_container_ext dom L L' x : leq L L' -> sp_container dom L x = sp_container dom L' x.
+Proof. intro H. unfold sp_container. apply find_ext. intro g. rewrite (H g). reflexivity. Qed.
+Lemma sp_unlist_ext dom L L' x : leq L L' -> leq (sp_unlist dom L x) (sp_unlist dom L' x).
+Proof.
+  intro H. unfold sp_unlist. rewrite (sp_container_ext dom L L' x H).
+  destruct (sp_container dom L' x) as [p|]; [|exact H]. rewrite (H p).
+  destruct (index_of x (L' p)); [apply updL_leq; [exact H | reflexivity] | exact H].
+Qed.
+Lemma sp_move_all_ext dom n : forall xs L L', leq L L' -> leq (sp_move_all dom L xs n) (sp_move_all dom L' xs n).
+Proof.
+  induction xs as [|x r IH]; intros L L' H; [exact H|]. simpl. apply IH.
+  pose proof (sp_unlist_ext dom L L' x H) as U. apply updL_leq; [exact U | rewrite (U n); reflexivity].
+Qed.
+Lemma sp_apply_ext dom n isc L L' o : leq L L' -> leq (sp_apply dom n isc L o) (sp_apply dom n isc L' o).
+Proof.
+  intro H.
+  assert (U1 : forall g v, leq (updL L g v) (updL L' g v)) by (intros; apply updL_leq; [exact H | reflexivity]).
+  destruct o; cbn [sp_apply].
+  - exact H.
+  - exact H.
+  - (* NewGroup *) destruct parent as [p|]; [|exact H]. destruct (isc p); [|exact H]. rewrite (H p). apply U1.
+  - (* GroupLayers *) destruct xs as [|x0 r]; [exact H|].
+    rewrite (sp_container_ext dom L L' x0 H).
+    pose proof (sp_move_all_ext (dom ++ [n]) n (x0 :: r) L L' H) as M.
+    destruct (match parent with Some p => Some p | None => sp_container dom L' x0 end) as [p|]; [|exact M].
+    destruct (isc p); [|exact M]. apply updL_leq; [exact M | rewrite (M p); reflexivity].
+  - rewrite (H g). apply U1.
+  - rewrite (H g). apply U1.
+  - rewrite (H g). apply U1.
+  - rewrite (H g). destruct (index_of x (L' g)); [apply U1 | exact H].
+  - rewrite (H g). destruct (idx_pos (zlen (L' g)) i); [apply U1 | exact H].
+  - apply U1.
+  - rewrite (H g). destruct (idx_pos (zlen (L' g)) i); [apply U1 | exact H].
+  - rewrite (H g). destruct (idx_pos (zlen (L' g)) i); [apply U1 | exact H].
+  - (* DeleteLayer *) apply sp_unlist_ext, H.
+  - (* MoveToGroup *) pose proof (sp_unlist_ext dom L L' x H) as U. apply updL_leq; [exact U | rewrite (U g); reflexivity].
+  - (* MoveUp *) rewrite (sp_container_ext dom L L' x H). destruct (sp_container dom L' x) as [p|]; [|exact H].
+    rewrite (H p). destruct (index_of x (L' p)); [apply U1 | exact H].
+  - (* MoveDown *) rewrite (sp_container_ext dom L L' x H). destruct (sp_container dom L' x) as [p|]; [|exact H].
+    rewrite (H p). destruct (index_of x (L' p)); [apply U1 | exact H].
+  - exact H. - exact H. - exact H. - exact H. - exact H. - exact H. - exact H. - exact H. - exact H. - exact H.
+Qed.
+
+(* ---------------------------------------------------------------- Group.group_layers *)
+Lemma next_detach_at s g k : next (detach_at s g k) = next s.
+Proof. unfold detach_at. destruct (nth_error (kids_of s g) k); reflexivity. Qed.
+Lemma next_attach : forall xs s g k, next (attach s g k xs) = next s.
+Proof. induction xs as [|x r IH]; intros s g k; [reflexivity|]. simpl. rewrite IH. reflexivity. Qed.
+Lemma next_mark_dirty s g : next (mark_dirty s g) = next s.
+Proof. apply (ps_next _ _ (mark_dirty_ptr s g)). Qed.
+Lemma next_do_remove s g x : next (fst (do_remove s g x)) = next s.
+Proof. unfold do_remove. destruct (index_of x (kid_ids s g)); [|reflexivity]. cbn [fst]. rewrite next_mark_dirty. apply next_detach_at. Qed.
+Lemma next_unlist s x : next (unlist_from_parent s x) = next s.
+Proof.
+  unfold unlist_from_parent. destruct (oparent (objs s x)); [|reflexivity].
+  destruct (memz x (kid_ids s z)); [apply next_do_remove | reflexivity].
+Qed.
+Lemma next_do_extend s g xs : next (fst (do_extend s g xs)) = next s.
+Proof.
+  unfold do_extend. destruct (check_valid s g xs); [apply (ps_next _ _ (check_fail_ptr s g o))|].
+  destruct (memz g xs); cbn [fst].
+  - unfold set_corrupt. cbn [next]. apply next_attach.
+  - rewrite next_mark_dirty. destruct (meta_frame (attach s g (length (kids_of s g)) xs) g) as [_ [N _]]. rewrite N. apply next_attach.
+Qed.
+Lemma next_do_move_to_group s x g : next (fst (do_move_to_group s x g)) = next s.
+Proof.
+  unfold do_move_to_group. destruct (negb (is_container s g)); [reflexivity|]. destruct (g =? x); [reflexivity|].
+  destruct ((kind s x =? KGroup) && memz g (descendants s x)); [apply (ps_next _ _ (fail_fmt_ptr _ s _))|].
+  unfold do_append. destruct (x =? g); [apply next_unlist|]. rewrite next_do_extend. apply next_unlist.
+Qed.
+
+Lemma move_all_kids n : forall xs st v,
+  Good st -> alloc_ok st n -> Forall (fun x => alloc_ok st x) xs ->
+  snd (move_all st xs n) = Done v ->
+  forall a, kid_ids (fst (move_all st xs n)) a = sp_move_all (all_ids st) (kid_ids st) xs n a.
+Proof.
+  induction xs as [|x r IH]; intros st v G An HF HD a; [reflexivity|].
+  inversion HF as [|? ? Ax HFr]; subst. simpl in *.
+  pose proof (do_move_to_group_ok st x n G Ax An) as [G1 [K1 _]].
+  pose proof (next_do_move_to_group st x n) as Nx.
+  destruct (do_move_to_group st x n) as [s1 [w|c]] eqn:E; cbn [fst snd] in *; [|discriminate].
+  assert (HD1 : snd (do_move_to_group st x n) = Done w) by (rewrite E; reflexivity).
+  pose proof (do_move_to_group_kids st x n w G Ax An HD1) as K. rewrite E in K. cbn [fst sp_apply] in K.
+  assert (HF1 : Forall (fun y => alloc_ok s1 y) r).
+  { eapply Forall_impl; [|exact HFr]. intros y Ay. apply (kn_alloc _ _ _ K1 Ay). }
+  rewrite (IH s1 v G1 (kn_alloc _ _ _ K1 An) HF1 HD a).
+  assert (Ed : all_ids s1 = all_ids st) by (unfold all_ids; rewrite Nx; reflexivity). rewrite Ed.
+  apply sp_move_all_ext. exact K.
+Qed.
+
+Lemma zrange_snoc a : forall n, zrange a (S n) = zrange a n ++ [a + Z.of_nat n].
+Proof.
+  intro n. revert a. induction n as [|n IH]; intro a.
+  - simpl. f_equal. lia.
+  - change (zrange a (S (S n))) with (a :: zrange (a + 1) (S n)). rewrite IH. simpl. f_equal. f_equal. f_equal. lia.
+Qed.
+Lemma all_ids_alloc s o : 0 <= next s -> all_ids (alloc s o) = all_ids s ++ [next s].
+Proof.
+  intro H. unfold all_ids, alloc. cbn [next]. replace (Z.to_nat (next s + 1)) with (S (Z.to_nat (next s))) by lia.
+  rewrite zrange_snoc. f_equal. f_equal. lia.
+Qed.
+
+(* the default parent is layers[0]._parent; the plain lists use the list that contains layers[0]:
+   they agree unless the stored parent no longer lists the layer (F-C09-2) *)
+Definition parent_fresh s (xs : list Z) (parent : option Z) : Prop :=
+  match parent, xs with
+  | None, x0 :: _ => forall q, oparent (objs s x0) = Some q -> memz x0 (kid_ids s q) = true
+  | _, _ => True
+  end.
+
+Lemma do_group_layers_kids s xs parent v :
+  Good s -> Forall (alloc_ok s) xs -> (forall p, parent = Some p -> alloc_ok s p) -> parent_fresh s xs parent ->
+  snd (do_group_layers s xs parent) = Done v ->
+  forall a, kid_ids (fst (do_group_layers s xs parent)) a
+            = sp_apply (all_ids s) (next s) (is_container s) (kid_ids s) (GroupLayers xs parent) a.
+Proof.
+  intros G Hxs Hp Hpf HD a. unfold do_group_layers in *. cbn [sp_apply]. destruct xs as [|x0 r]; [discriminate|].
+  set (xs := x0 :: r) in *.
+  pose proof G as [HI Q].
+  assert (Epar : match parent with Some p => Some p | None => oparent (objs s x0) end
+                 = match parent with Some p => Some p | None => sp_container (all_ids s) (kid_ids s) x0 end).
+  { destruct parent as [p|]; [reflexivity|]. cbn in Hpf. destruct (oparent (objs s x0)) as [q|] eqn:P.
+    - symmetry. apply container_listed; [exact HI | apply Hpf; reflexivity].
+    - symmetry. apply container_unlisted; [exact HI|]. intros b Pb. rewrite P in Pb. discriminate. }
+  rewrite <- Epar. clear Epar.
+  set (par := match parent with Some p => Some p | None => oparent (objs s x0) end) in *.
+  assert (Hpar : forall p, par = Some p -> alloc_ok s p).
+  { intros p Ep. unfold par in Ep. destruct parent as [q|]; [inversion Ep; subst; apply Hp; reflexivity|].
+    destruct HI as [_ [_ [_ [_ [_ [_ [H7 _]]]]]]]. rewrite Forall_forall in H7.
+    inversion Hxs as [|? ? A0 _]; subst. specialize (H7 x0 (proj2 (all_ids_In s x0) A0)).
+    unfold parent_alloc in H7. rewrite Ep in H7. exact H7. }
+  destruct (alloc_step s new_group_obj G eq_refl eq_refl) as [[G1 [K1 R1]] [Rn [An On]]].
+  set (s1 := alloc s new_group_obj) in *. set (n := next s) in *.
+  assert (HF : Forall (fun x => alloc_ok s1 x) xs).
+  { eapply Forall_impl; [|exact Hxs]. intros y Ay. apply (kn_alloc _ _ _ K1 Ay). }
+  assert (Hn0 : 0 <= next s) by (destruct HI as [_ [_ [_ [_ [_ [_ [_ H8]]]]]]]; exact H8).
+  assert (Kmove : forall w, snd (move_all s1 xs n) = Done w ->
+            forall b, kid_ids (fst (move_all s1 xs n)) b = sp_move_all (all_ids s ++ [n]) (kid_ids s) xs n b).
+  { intros w Hw b. rewrite (move_all_kids n xs s1 w G1 An HF Hw b).
+    unfold s1 at 1. rewrite (all_ids_alloc s new_group_obj Hn0). fold n.
+    apply sp_move_all_ext. intro c. apply alloc_kids, HI. }
+  destruct (move_all_ok n xs s1 G1 An Rn) as [[G2 [K2 R2]] Rn2].
+  { eapply Forall_impl; [|exact Hxs]. intros y Ay. split; [apply (kn_alloc _ _ _ K1 Ay) | unfold alloc_ok, n in *; lia]. }
+  destruct (move_all s1 xs n) as [s2 [w|c]] eqn:E; cbn [fst snd] in *; [|discriminate].
+  specialize (Kmove w eq_refl).
+  destruct par as [p|]; [|cbn [fst]; apply Kmove].
+  assert (Ap : alloc_ok s p) by (apply Hpar; reflexivity).
+  assert (Ap2 : alloc_ok s2 p) by (apply (kn_alloc _ _ _ K2), (kn_alloc _ _ _ K1), Ap).
+  assert (Ec : is_container s2 p = is_container s p).
+  { rewrite (kn_container _ _ _ K2 (kn_alloc _ _ _ K1 Ap)). apply (kn_container _ _ _ K1 Ap). }
+  rewrite Ec in *. destruct (is_container s p) eqn:C; [|cbn [fst]; apply Kmove].
+  rewrite fst_relabel.
+  destruct (do_append s2 p n) as [s3 [w3|c3]] eqn:E3; cbn [snd] in HD; [|discriminate].
+  assert (HD3 : snd (do_append s2 p n) = Done w3) by (rewrite E3; reflexivity).
+  assert (C2 : is_container s2 p = true) by (rewrite Ec; reflexivity).
+  pose proof (do_append_kids s2 p n w3 G2 Ap2 C2 Rn2 HD3 a) as K3. rewrite E3 in K3. cbn [fst] in *. rewrite K3.
+  rewrite (Kmove p). apply updL_ext. exact Kmove.
+Qed.
+
 (* ---------------------------------------------------------------- the refinement theorem (one step) *)
-Definition refined_op (o : op) : bool :=
-  match o with GroupLayers _ _ => false | _ => true end.
+(* the extra hypothesis of the refinement: only Group.group_layers has one *)
+Definition refine_guard s (o : op) : Prop :=
+  match o with GroupLayers xs parent => parent_fresh s xs parent | _ => True end.
 
 Theorem step_refines s o v :
-  Good s -> guard s o -> refined_op o = true -> snd (step s o) = Done v ->
+  Good s -> guard s o -> refine_guard s o -> snd (step s o) = Done v ->
   forall a, kid_ids (fst (step s o)) a = sp_apply (all_ids s) (next s) (is_container s) (kid_ids s) o a.
 Proof.
   intros G [Hids Hg] Hro HD a. pose proof G as [[_ [_ [_ [_ [_ [Hcor _]]]]]] _].
@@ -363,10 +532,13 @@ Proof.
   destruct (match needs_container o with Some g => negb (is_container s g) | None => false end) eqn:NC; [discriminate|].
   destruct (match needs_layer o with Some x => negb (is_layer s x) | None => false end) eqn:NL; [discriminate|].
   rewrite Forall_forall in Hids.
-  destruct o; cbn [op_ids needs_container needs_layer refined_op] in *; try discriminate.
+  destruct o; cbn [op_ids needs_container needs_layer refine_guard] in *.
   - (* NewDoc *) cbn [fst sp_apply]. apply alloc_kids, G.
   - (* NewPixel *) cbn [fst sp_apply]. apply alloc_kids, G.
   - (* NewGroup *) apply (do_new_group_kids s parent v G); [|exact HD]. intros p E. subst. apply Hids. left. reflexivity.
+  - (* GroupLayers *) apply (do_group_layers_kids s xs parent v G); [| |exact Hro|exact HD].
+    + apply Forall_forall. intros y Hy. apply Hids. apply in_or_app. left. exact Hy.
+    + intros p E. subst. apply Hids. apply in_or_app. right. left. reflexivity.
   - (* Append *) apply negb_false_iff in NC. cbn [sp_apply].
     apply (do_append_kids s g x v G); auto. apply Hids. left. reflexivity.
   - (* Extend *) apply negb_false_iff in NC. destruct Hg as [A [B C]]. cbn [sp_apply].
@@ -404,57 +576,6 @@ Qed.
 (* ---------------------------------------------------------------- histories *)
 Lemma run_cons_r s o r : run s (o :: r) = run (fst (step s o)) r.
 Proof. reflexivity. Qed.
-Definition leq (L L' : lists) : Prop := forall a, L a = L' a.
-Lemma leq_refl L : leq L L. Proof. intro; reflexivity. Qed.
-Lemma leq_trans A B C : leq A B -> leq B C -> leq A C.
-Proof. intros H1 H2 a. rewrite H1. apply H2. Qed.
-Lemma updL_leq L L' g v v' : leq L L' -> v = v' -> leq (updL L g v) (updL L' g v').
-Proof. intros H E a. subst. unfold updL. destruct (a =? g); [reflexivity | apply H]. Qed.
-Lemma find_ext {A} (f f' : A -> bool) l : (forall a, f a = f' a) -> find f l = find f' l.
-Proof. intro H. induction l as [|y r IH]; [reflexivity|]. simpl. rewrite H, IH. reflexivity. Qed.
-Lemma sp_container_ext dom L L' x : leq L L' -> sp_container dom L x = sp_container dom L' x.
-Proof. intro H. unfold sp_container. apply find_ext. intro g. rewrite (H g). reflexivity. Qed.
-Lemma sp_unlist_ext dom L L' x : leq L L' -> leq (sp_unlist dom L x) (sp_unlist dom L' x).
-Proof.
-  intro H. unfold sp_unlist. rewrite (sp_container_ext dom L L' x H).
-  destruct (sp_container dom L' x) as [p|]; [|exact H]. rewrite (H p).
-  destruct (index_of x (L' p)); [apply updL_leq; [exact H | reflexivity] | exact H].
-Qed.
-Lemma sp_move_all_ext dom n : forall xs L L', leq L L' -> leq (sp_move_all dom L xs n) (sp_move_all dom L' xs n).
-Proof.
-  induction xs as [|x r IH]; intros L L' H; [exact H|]. simpl. apply IH.
-  pose proof (sp_unlist_ext dom L L' x H) as U. apply updL_leq; [exact U | rewrite (U n); reflexivity].
-Qed.
-Lemma sp_apply_ext dom n isc L L' o : leq L L' -> leq (sp_apply dom n isc L o) (sp_apply dom n isc L' o).
-Proof.
-  intro H.
-  assert (U1 : forall g v, leq (updL L g v) (updL L' g v)) by (intros; apply updL_leq; [exact H | reflexivity]).
-  destruct o; cbn [sp_apply].
-  - exact H.
-  - exact H.
-  - (* NewGroup *) destruct parent as [p|]; [|exact H]. destruct (isc p); [|exact H]. rewrite (H p). apply U1.
-  - (* GroupLayers *) destruct xs as [|x0 r]; [exact H|].
-    rewrite (sp_container_ext dom L L' x0 H).
-    pose proof (sp_move_all_ext dom n (x0 :: r) L L' H) as M.
-    destruct (match parent with Some p => Some p | None => sp_container dom L' x0 end) as [p|]; [|exact M].
-    destruct (isc p); [|exact M]. apply updL_leq; [exact M | rewrite (M p); reflexivity].
-  - rewrite (H g). apply U1.
-  - rewrite (H g). apply U1.
-  - rewrite (H g). apply U1.
-  - rewrite (H g). destruct (index_of x (L' g)); [apply U1 | exact H].
-  - rewrite (H g). destruct (idx_pos (zlen (L' g)) i); [apply U1 | exact H].
-  - apply U1.
-  - rewrite (H g). destruct (idx_pos (zlen (L' g)) i); [apply U1 | exact H].
-  - rewrite (H g). destruct (idx_pos (zlen (L' g)) i); [apply U1 | exact H].
-  - (* DeleteLayer *) apply sp_unlist_ext, H.
-  - (* MoveToGroup *) pose proof (sp_unlist_ext dom L L' x H) as U. apply updL_leq; [exact U | rewrite (U g); reflexivity].
-  - (* MoveUp *) rewrite (sp_container_ext dom L L' x H). destruct (sp_container dom L' x) as [p|]; [|exact H].
-    rewrite (H p). destruct (index_of x (L' p)); [apply U1 | exact H].
-  - (* MoveDown *) rewrite (sp_container_ext dom L L' x H). destruct (sp_container dom L' x) as [p|]; [|exact H].
-    rewrite (H p). destruct (index_of x (L' p)); [apply U1 | exact H].
-  - exact H. - exact H. - exact H. - exact H. - exact H. - exact H. - exact H. - exact H. - exact H. - exact H.
-Qed.
-
 (* the plain lists run next to the model; which ids exist and which are containers is read off the model *)
 Fixpoint sp_run (s : state) (L : lists) (h : list op) : lists :=
   match h with
@@ -464,7 +585,7 @@ Fixpoint sp_run (s : state) (L : lists) (h : list op) : lists :=
 Fixpoint accepted (s : state) (h : list op) : Prop :=
   match h with
   | [] => True
-  | o :: r => (exists v, snd (step s o) = Done v) /\ refined_op o = true /\ accepted (fst (step s o)) r
+  | o :: r => (exists v, snd (step s o) = Done v) /\ refine_guard s o /\ accepted (fst (step s o)) r
   end.
 Fixpoint guards_r (s : state) (h : list op) : Prop :=
   match h with [] => True | o :: r => guard s o /\ guards_r (fst (step s o)) r end.
